@@ -84,11 +84,12 @@ theorem fieldPresent_prefix {f : Field} {acc ext : List (Option Val)} {params : 
     simp only [natArgVal_prefix h1]
 
 /-- round trip of a reader/writer pair on the values accepted by `nm` -/
-def RT (rd : Rd) (wr : Wr) (nm : Nm) : Prop :=
-  ∀ ty bare na v bs rest, nm ty bare na v = true → wr ty bare na v = .ok bs → rd ty bare na (bs ++ rest) = .ok (v, rest)
+def RT (S : Nat → Bool) (rd : Rd) (wr : Wr) (nm : Nm) : Prop :=
+  ∀ ty bare na v bs rest, S ty = true → nm ty bare na v = true → wr ty bare na v = .ok bs → rd ty bare na (bs ++ rest) = .ok (v, rest)
 
-theorem writeFields_read {rd : Rd} {wr : Wr} {nm : Nm} (hrt : RT rd wr nm) (params : List Nat) (rest : Bytes) :
+theorem writeFields_read {S : Nat → Bool} {rd : Rd} {wr : Wr} {nm : Nm} (hrt : RT S rd wr nm) (params : List Nat) (rest : Bytes) :
     ∀ (fields : List Field) (acc vs : List (Option Val)) (bs : Bytes),
+      (∀ f ∈ fields, S f.ty = true) →
       fieldsRefsOk acc.length fields = true →
       normalFieldsWith nm params (acc ++ vs) fields vs = true →
       writeFieldsWith wr params (acc ++ vs) fields vs = .ok bs →
@@ -96,12 +97,13 @@ theorem writeFields_read {rd : Rd} {wr : Wr} {nm : Nm} (hrt : RT rd wr nm) (para
   intro fields
   induction fields with
   | nil =>
-    intro acc vs bs _ hn hw
+    intro acc vs bs _ _ hn hw
     cases vs with
     | nil => simp only [writeFieldsWith] at hw; injection hw with hw; subst hw; simp [readFieldsWith]
     | cons v vs => simp [normalFieldsWith] at hn
   | cons f fs ih =>
-    intro acc vs bs hro hn hw
+    intro acc vs bs hS hro hn hw
+    have hS' : ∀ g ∈ fs, S g.ty = true := fun g hg => hS g (by simp [hg])
     cases vs with
     | nil => simp [normalFieldsWith] at hn
     | cons v vs =>
@@ -135,19 +137,20 @@ theorem writeFields_read {rd : Rd} {wr : Wr} {nm : Nm} (hrt : RT rd wr nm) (para
                 | ok b2 =>
                   simp only [hrest] at hw
                   injection hw with hw; subst hw
-                  rw [List.append_assoc, hrt _ _ _ _ _ _ hn.1 hx]
+                  rw [List.append_assoc, hrt _ _ _ _ _ _ (hS f (by simp)) hn.1 hx]
                   simp only
                   rw [eacc] at hrest hn ⊢
-                  exact ih _ _ _ (by rw [hlen]; exact hro) hn.2 hrest
+                  exact ih _ _ _ hS' (by rw [hlen]; exact hro) hn.2 hrest
           | false =>
             simp only [hp, hna, Bool.and_eq_true] at hn hw ⊢
             cases v with
             | some x => simp at hn
             | none =>
               rw [eacc] at hw hn ⊢
-              exact ih _ _ _ (by rw [hlen]; exact hro) hn.2 hw
+              exact ih _ _ _ hS' (by rw [hlen]; exact hro) hn.2 hw
 
-theorem writeElems_read {rd : Rd} {wr : Wr} {nm : Nm} (hrt : RT rd wr nm) (f : Field) (na : List Nat) (rest : Bytes) :
+theorem writeElems_read {S : Nat → Bool} {rd : Rd} {wr : Wr} {nm : Nm} (hrt : RT S rd wr nm) (f : Field) (hS : S f.ty = true)
+    (na : List Nat) (rest : Bytes) :
     ∀ (es : List Val) (bs : Bytes), es.all (nm f.ty f.bare na) = true → writeElemsWith wr f na es = .ok bs →
       readElemsWith rd f na es.length (bs ++ rest) = .ok (es, rest) := by
   intro es
@@ -167,7 +170,7 @@ theorem writeElems_read {rd : Rd} {wr : Wr} {nm : Nm} (hrt : RT rd wr nm) (f : F
         simp only [hr] at hw
         injection hw with hw; subst hw
         simp only [List.length_cons, readElemsWith]
-        rw [List.append_assoc, hrt _ _ _ _ _ _ hn.1 hx]
+        rw [List.append_assoc, hrt _ _ _ _ _ _ hS hn.1 hx]
         simp only [ih _ hn.2 hr]
 
 
@@ -484,13 +487,14 @@ theorem sanity_of_min {d : Desc} {cfg : Cfg} (hs : cfg.sanity = false ∨ 4 ≤ 
     simp only [Bool.or_eq_true, decide_eq_true_eq, List.length_append]
     right; omega
 
-theorem writeTL1_read (cfg : Cfg) (d : Desc) (hrt : d.rtOk = true) (hs : cfg.sanity = false ∨ d.elemMin4 = true) :
-    ∀ fuel, RT (readTL1 cfg d fuel) (writeTL1 d fuel) (normalTL1 d fuel) := by
+theorem writeTL1_read (cfg : Cfg) (d : Desc) (S : Nat → Bool) (hcl : d.closed S = true)
+    (hrt : d.allOn S (Inst.rtOk d) = true) (hs : cfg.sanity = false ∨ d.allOn S (Inst.elemMin4 d) = true) :
+    ∀ fuel, RT S (readTL1 cfg d fuel) (writeTL1 d fuel) (normalTL1 d fuel) := by
   intro fuel
   induction fuel with
-  | zero => intro ty bare na v bs rest hn _; simp [normalTL1] at hn
+  | zero => intro ty bare na v bs rest _ hn _; simp [normalTL1] at hn
   | succ fuel ih =>
-    intro ty bare params v bs rest hn hw
+    intro ty bare params v bs rest hSty hn hw
     simp only [normalTL1] at hn
     simp only [writeTL1] at hw
     simp only [readTL1]
@@ -498,7 +502,8 @@ theorem writeTL1_read (cfg : Cfg) (d : Desc) (hrt : d.rtOk = true) (hs : cfg.san
     | none => simp [hg] at hn
     | some inst =>
       simp only [hg] at hn hw ⊢
-      have hi := Desc.rtOk_get hrt hg
+      have hi := Desc.allOn_get hrt hg hSty
+      have hrefs := Desc.closed_get hcl hg hSty
       cases inst with
       | prim k => exact writePrim_read hi hn hw rest
       | struct s =>
@@ -511,7 +516,8 @@ theorem writeTL1_read (cfg : Cfg) (d : Desc) (hrt : d.rtOk = true) (hs : cfg.san
           | ok b =>
             simp only [hwf] at hw
             injection hw with hw; subst hw
-            have hrd := writeFields_read ih params rest s.fields [] fs b hi.2 hn hwf
+            have hrd := writeFields_read ih params rest s.fields [] fs b
+              (fun f hf => hrefs _ (by simp only [Inst.refs]; exact List.mem_map_of_mem hf)) hi.2 hn hwf
             cases bare with
             | true => simp only [if_true, List.nil_append] at hrd ⊢; rw [hrd]
             | false =>
@@ -534,7 +540,9 @@ theorem writeTL1_read (cfg : Cfg) (d : Desc) (hrt : d.rtOk = true) (hs : cfg.san
               obtain ⟨b, eb, hwb⟩ := writeTL1_bare_of_boxed hgv hw
               subst eb
               rw [List.append_assoc, readU32_u32le_lt htag]
-              simp only [hfind, ih _ _ _ _ _ rest hn hwb]
+              have hSvi : S vi = true := hrefs _ (by
+                simp only [Inst.refs]; exact List.mem_map_of_mem (f := (·.1)) (List.mem_of_getElem? hv))
+              simp only [hfind, ih _ _ _ _ _ rest hSvi hn hwb]
         | _ => simp at hn
       | array a =>
         cases v with
@@ -547,7 +555,7 @@ theorem writeTL1_read (cfg : Cfg) (d : Desc) (hrt : d.rtOk = true) (hs : cfg.san
             have hsan : cfg.sanity = false ∨ (a.isTuple && !a.dynamic) = true ∨ 4 ≤ minSize d d.insts.size a.elem.ty a.elem.bare := by
               rcases hs with hs | hs
               · exact Or.inl hs
-              · have := Desc.elemMin4_get hs hg
+              · have := Desc.allOn_get hs hg hSty
                 simp only [Inst.elemMin4, Bool.or_eq_true, decide_eq_true_eq] at this
                 exact Or.inr this
             by_cases ct : a.isTuple = true
@@ -571,7 +579,7 @@ theorem writeTL1_read (cfg : Cfg) (d : Desc) (hrt : d.rtOk = true) (hs : cfg.san
                       simp [this]
                     · simp [cd]
                   simp only [hsok, Bool.false_eq_true, if_false]
-                  rw [← hl', writeElems_read ih a.elem na rest es bs hn hw]
+                  rw [← hl', writeElems_read ih a.elem (hrefs _ (by simp [Inst.refs])) na rest es bs hn hw]
                   rfl
             · simp only [ct, Bool.false_eq_true, if_false] at hw ⊢
               split at hw
@@ -589,7 +597,7 @@ theorem writeTL1_read (cfg : Cfg) (d : Desc) (hrt : d.rtOk = true) (hs : cfg.san
                     · simp [ct] at h
                     · exact sanity_of_min (Or.inr h) rfl rfl hwe rest
                   simp only [this, Bool.not_true, Bool.false_eq_true, if_false]
-                  rw [writeElems_read ih a.elem na rest es b hn hwe]
+                  rw [writeElems_read ih a.elem (hrefs _ (by simp [Inst.refs])) na rest es b hn hwe]
                   rfl
         | _ => simp at hn
       | dict a =>
@@ -615,11 +623,11 @@ theorem writeTL1_read (cfg : Cfg) (d : Desc) (hrt : d.rtOk = true) (hs : cfg.san
                   have : sanityOk cfg (b ++ rest) es.length = true := by
                     rcases hs with h | h
                     · exact sanity_of_min (Or.inl h) rfl rfl hwe rest
-                    · have := Desc.elemMin4_get h hg
+                    · have := Desc.allOn_get h hg hSty
                       simp only [Inst.elemMin4, decide_eq_true_eq] at this
                       exact sanity_of_min (Or.inr this) rfl rfl hwe rest
                   simp only [this, Bool.not_true, Bool.false_eq_true, if_false]
-                  rw [writeElems_read ih a.elem na rest es b hn.1 hwe]
+                  rw [writeElems_read ih a.elem (hrefs _ (by simp [Inst.refs])) na rest es b hn.1 hwe]
                   simp only [Except.map, dictNormalize_sorted hn.2]
         | _ => simp at hn
 end TLVerif.Codec
